@@ -1027,6 +1027,11 @@ impl ActTask for Arc<Task> {
         // update prev outputs to current task
         let outputs = ctx.task().outputs();
         self.update_data(&outputs);
+        // a task that has already ended gets no further event: its stored row is brought up
+        // to date here (a hook act or a task left open by an error ending finished after it)
+        if self.state().is_completed() {
+            let _ = self.runtime.cache().upsert(self);
+        }
 
         ctx.set_task(self);
 
